@@ -4,7 +4,7 @@
     outcomes by [Corr.prop_case], and the theorems of Properties.v relate the model (whose SQL
     conditions are the regenerated trees) to them. *)
 From V.Lib Require Import Base.
-From V.C08 Require Import Sql Model.
+From V.C08 Require Import Sql Model ModelT.
 Local Open Scope Z_scope.
 
 (** A recorded spending transaction still counts at [target] when it is mined below the target,
@@ -67,3 +67,47 @@ Definition spendable (c : scfg) (r : note_row) : bool :=
 (** Step balance: inputs = payments + change + fee. *)
 Definition step_balanced (s : step) : bool :=
   s_in_value s =? s_pay s + s_change s + s_fee s.
+
+(** ** transparent outputs *)
+
+(** Confirmed for spending at [target] with [minconf] confirmations; with zero required
+    confirmations an output of an unmined, unexpired transaction also counts. *)
+Definition utxo_confirmed (target minconf : Z) (u : utxo_row) : bool :=
+  match u_mined u with Some m => (m <? target) && (minconf <=? target - m) | None => false end
+  || ((minconf =? 0) && match u_expiry u with Some x => (x =? 0) || (target <=? x) | None => false end).
+
+Definition utxo_unspent (target : Z) (u : utxo_row) : bool :=
+  forallb (fun s => negb (spender_counts target s)) (u_spenders u).
+
+Definition utxo_is_coinbase (u : utxo_row) : bool :=
+  match u_txindex u with Some i => i =? 0 | None => false end.
+
+(** coinbase outputs need 100 confirmations *)
+Definition utxo_coinbase_mature (target : Z) (u : utxo_row) : bool :=
+  if utxo_is_coinbase u then match u_mined u with Some m => 100 <=? target - m | None => false end else true.
+
+Definition utxo_filter_ok (f : cbfilter) (u : utxo_row) : bool :=
+  match f with CbAll => true | CbOnly => utxo_is_coinbase u | CbNon => negb (utxo_is_coinbase u) end.
+
+(** An output at an ephemeral address is spendable only if it is not the middle of one of the
+    wallet's own ZIP 320 chains, or was seen unspent after that chain's transaction expired. *)
+Definition utxo_not_wallet_ephemeral (u : utxo_row) : bool :=
+  negb (u_scope u =? 2) || u_no_wallet_inputs u
+  || match u_maxobs u, u_expiry u with Some a, Some b => b <? a | _, _ => false end.
+
+Definition utxo_has_key (u : utxo_row) : bool :=
+  negb ((u_scope u =? -1) && negb (u_imp_pubkey u) && negb (u_imp_script u)).
+
+Definition utxo_not_locked_by_other (target : Z) (owners : list Z) (u : utxo_row) : bool :=
+  match u_lock u with
+  | None => true
+  | Some x => (x <? target) || match u_owner u with Some o => existsb (Z.eqb o) owners | None => false end
+  end.
+
+Definition utxo_spendable (target minconf : Z) (f : cbfilter) (addrs : list Z) (owners : option (list Z))
+    (u : utxo_row) : bool :=
+  existsb (Z.eqb (u_addr u)) addrs && (5000 <? u_value u)
+  && utxo_confirmed target minconf u && utxo_unspent target u
+  && utxo_not_wallet_ephemeral u && utxo_coinbase_mature target u && utxo_filter_ok f u
+  && match owners with None => true | Some o => utxo_not_locked_by_other target o u end
+  && utxo_has_key u.
